@@ -84,4 +84,457 @@ theorem anyNegative_filter (p : Slot → Bool) (xs : List Slot) (h : anyNegative
   intro s hs
   exact h s (List.mem_filter.1 hs).1
 
+/-! ### the template invariant -/
+
+/-- labels by kind of a contents list -/
+def labelAt (contents : List (Kind × Content)) (k : Kind) : Option Mode := (getAssoc k contents).map labelOf
+
+/-- component labels and contents agree, and the case label is right for them -/
+def GoodCC (mode : Mode) (cc : List (Kind × Mode) × List (Kind × Content)) : Prop :=
+  (∀ k, getAssoc k cc.1 = labelAt cc.2 k) ∧ (mode = .negative ↔ ∃ k, labelAt cc.2 k = some .negative)
+
+/-- template invariant: component labels = labels of the contents, all equal to `m0`; no parameter container of kind body -/
+structure TI (m0 : Mode) (t : Template) : Prop where
+  comps : ∀ k, getAssoc k t.comps = labelAt t.contents k
+  uniform : ∀ k m, labelAt t.contents k = some m → m = m0
+  nobody : getAssoc Kind.body t.conts = none
+
+theorem contents_at (t : Template) (k : Kind) :
+    getAssoc k t.contents =
+      match getAssoc k t.conts with
+      | some xs => some (Content.slots xs)
+      | none => (match t.body with | some m => if k = Kind.body then some (Content.bodyValue m) else none | none => none) := by
+  unfold Template.contents
+  rw [getAssoc_append]
+  have := getAssoc_map k Content.slots t.conts
+  rw [show (t.conts.map fun x => match x with | (k, xs) => (k, Content.slots xs)) =
+        (t.conts.map fun p => (p.1, Content.slots p.2)) from by
+          apply List.map_congr_left; intro ⟨a, b⟩ _; rfl]
+  rw [this]
+  cases h : getAssoc k t.conts with
+  | some xs => simp
+  | none =>
+    simp only [Option.map_none]
+    cases t.body with
+    | none => simp [getAssoc]
+    | some m =>
+      simp only [getAssoc]
+      by_cases hk : Kind.body = k
+      · subst hk; simp
+      · have : ¬ k = Kind.body := fun e => hk e.symm
+        simp [hk, this]
+
+theorem TI_empty (m0 : Mode) : TI m0 {} := by
+  refine ⟨?_, ?_, ?_⟩
+  · intro k; simp [labelAt, Template.contents, getAssoc]
+  · intro k m h; simp [labelAt, Template.contents, getAssoc] at h
+  · simp [getAssoc]
+
+theorem mkCase_good {mode cc desc p pl} (h : GoodCC mode cc) :
+    caseLabelOk (mkCase mode cc desc p pl) = true ∧ compsOk (mkCase mode cc desc p pl) = true := by
+  obtain ⟨h1, h2⟩ := h
+  constructor
+  · unfold caseLabelOk caseSpecNegative mkCase
+    simp only [Option.isSome_none, Bool.false_or]
+    by_cases hm : mode = .negative
+    · obtain ⟨k, hk⟩ := h2.1 hm
+      have : (allKinds.any fun k => (getAssoc k cc.2).map labelOf == some Mode.negative) = true := by
+        rw [List.any_eq_true]; exact ⟨k, mem_allKinds k, by simpa [labelAt] using hk⟩
+      simp [hm, this]
+    · have : (allKinds.any fun k => (getAssoc k cc.2).map labelOf == some Mode.negative) = false := by
+        rw [List.any_eq_false]
+        intro k _ hk
+        apply hm; apply h2.2; exact ⟨k, by simpa [labelAt] using hk⟩
+      rw [this]
+      cases mode
+      · rfl
+      · exact absurd rfl hm
+  · unfold compsOk mkCase
+    rw [List.all_eq_true]
+    intro k _
+    simp only [h1 k, labelAt, beq_self_eq_true]
+
+theorem labelAt_template (t : Template) (k : Kind) :
+    labelAt t.contents k =
+      match getAssoc k t.conts with
+      | some xs => some (labelOf (Content.slots xs))
+      | none => (match t.body with | some m => if k = Kind.body then some m else none | none => none) := by
+  unfold labelAt
+  rw [contents_at]
+  cases getAssoc k t.conts with
+  | some xs => rfl
+  | none =>
+    cases t.body with
+    | none => rfl
+    | some m => by_cases hk : k = Kind.body <;> simp [hk, labelOf]
+
+theorem labelOf_slots_setSlot (m0 : Mode) (name : String) (cont : List Slot)
+    (h : labelOf (Content.slots cont) = m0 ∨ cont = []) : labelOf (Content.slots (setSlot name m0 cont)) = m0 := by
+  cases m0 with
+  | negative => simp [labelOf, anyNegative_setSlot_neg]
+  | positive =>
+    have hc : anyNegative cont = false := by
+      rcases h with h | h
+      · simp only [labelOf] at h
+        by_cases ha : anyNegative cont = true
+        · simp [ha] at h
+        · simpa using ha
+      · subst h; rfl
+    simp [labelOf, anyNegative_setSlot_pos name cont hc]
+
+/-- `add_parameter` with a value labelled `m0` keeps the invariant -/
+theorem TI_addParameter {m0 t} (h : TI m0 t) (kind : Kind) (hk : kind ≠ Kind.body) (name : String) (v : LV)
+    (hv : v.mode = m0) : TI m0 (t.addParameter kind name v) := by
+  have hcont : labelOf (Content.slots ((getAssoc kind t.conts).getD [])) = m0 ∨ (getAssoc kind t.conts).getD [] = [] := by
+    cases hc : getAssoc kind t.conts with
+    | none => right; rfl
+    | some xs =>
+      left
+      have := h.uniform kind (labelOf (Content.slots xs)) (by rw [labelAt_template, hc])
+      simpa using this
+  have hnew := labelOf_slots_setSlot m0 name _ hcont
+  -- the new component table, pointwise
+  have hcomps : ∀ k, getAssoc k (t.addParameter kind name v).comps = if k = kind then some m0 else getAssoc k t.comps := by
+    intro k
+    unfold Template.addParameter
+    simp only
+    cases hg : getAssoc kind t.comps with
+    | none => simp only [getAssoc_setAssoc, hv]
+    | some old =>
+      have hold : old = m0 := h.uniform kind old (by rw [← h.comps kind, hg])
+      subst hold
+      simp only
+      by_cases hn : v.mode = Mode.negative
+      · simp only [hn, if_true, getAssoc_setAssoc]
+        rw [← hv, hn]
+      · simp only [hn, if_false]
+        by_cases hkk : k = kind
+        · subst hkk; simp [hg]
+        · simp [hkk]
+  have hconts : ∀ k, getAssoc k (t.addParameter kind name v).conts =
+      if k = kind then some (setSlot name v.mode ((getAssoc kind t.conts).getD [])) else getAssoc k t.conts := by
+    intro k; unfold Template.addParameter; simp only [getAssoc_setAssoc]
+  have hbody : (t.addParameter kind name v).body = t.body := rfl
+  refine ⟨?_, ?_, ?_⟩
+  · intro k
+    rw [hcomps, labelAt_template, hconts, hbody]
+    by_cases hkk : k = kind
+    · subst hkk; simp only [if_true]; rw [hv, hnew]
+    · simp only [hkk, if_false]; rw [h.comps k, labelAt_template]
+  · intro k m hm
+    rw [labelAt_template, hconts, hbody] at hm
+    by_cases hkk : k = kind
+    · subst hkk; simp only [if_true] at hm; rw [hv, hnew] at hm; cases hm; rfl
+    · simp only [hkk, if_false] at hm
+      exact h.uniform k m (by rw [labelAt_template]; exact hm)
+  · rw [hconts]
+    have : ¬ Kind.body = kind := fun e => hk e.symm
+    simp only [this, if_false]; exact h.nobody
+
+/-- `set_body` with a value labelled `m0` keeps the invariant -/
+theorem TI_setBody {m0 t} (h : TI m0 t) (v : LV) (hv : v.mode = m0) : TI m0 (t.setBody v) := by
+  have hconts : (t.setBody v).conts = t.conts := rfl
+  have hbody : (t.setBody v).body = some v.mode := rfl
+  refine ⟨?_, ?_, ?_⟩
+  · intro k
+    rw [labelAt_template, hconts, hbody]
+    unfold Template.setBody
+    simp only [getAssoc_setAssoc]
+    by_cases hk : k = Kind.body
+    · subst hk; simp [h.nobody]
+    · simp only [hk, if_false]
+      rw [h.comps k, labelAt_template]
+      cases hc : getAssoc k t.conts with
+      | some xs => rfl
+      | none =>
+        simp only
+        cases t.body with
+        | none => rfl
+        | some m => simp [hk]
+  · intro k m hm
+    rw [labelAt_template, hconts, hbody] at hm
+    cases hc : getAssoc k t.conts with
+    | some xs =>
+      simp only [hc] at hm
+      exact h.uniform k m (by rw [labelAt_template, hc]; exact hm)
+    | none =>
+      simp only [hc] at hm
+      by_cases hk : k = Kind.body
+      · simp only [hk, if_true] at hm; cases hm; exact hv
+      · simp [hk] at hm
+  · exact h.nobody
+
+/-! ### the case constructors -/
+
+/-- the unmodified template: all labels are `m0` -/
+theorem good_template {m0 t} (h : TI m0 t) (hm : m0 = .positive) : GoodCC .positive (t.comps, t.contents) := by
+  refine ⟨h.comps, ?_⟩
+  constructor
+  · intro e; cases e
+  · rintro ⟨k, hk⟩
+    have := h.uniform k _ hk
+    rw [hm] at this; cases this
+
+theorem comps_template {m0 t} (h : TI m0 t) : ∀ k, getAssoc k t.comps = labelAt t.contents k := h.comps
+
+/-- `with_container`: fine when the new content deserves the new label and either that label is negative or the
+    rest of the template is positive -/
+theorem good_withContainer {m0 t} (h : TI m0 t) (kind : Kind) (c : Content) (mode : Mode)
+    (hl : labelOf c = mode) (hm : mode = .negative ∨ m0 = .positive) :
+    GoodCC mode (t.withContainer kind c mode) := by
+  unfold Template.withContainer
+  have hat : ∀ k, labelAt (setAssoc kind c t.contents) k = if k = kind then some mode else labelAt t.contents k := by
+    intro k; unfold labelAt; rw [getAssoc_setAssoc]
+    by_cases hk : k = kind <;> simp [hk, hl]
+  refine ⟨?_, ?_⟩
+  · intro k
+    simp only [getAssoc_setAssoc, hat]
+    by_cases hk : k = kind
+    · simp [hk]
+    · simp only [hk, if_false]; exact h.comps k
+  · simp only [hat]
+    constructor
+    · intro e; exact ⟨kind, by simp [e]⟩
+    · rintro ⟨k, hk⟩
+      by_cases hkk : k = kind
+      · simp only [hkk, if_true] at hk; exact Option.some.inj hk
+      · simp only [hkk, if_false] at hk
+        have := h.uniform k _ hk
+        rcases hm with hm | hm
+        · exact hm
+        · rw [hm] at this; cases this
+
+/-- `with_body` -/
+theorem good_withBody {m0 t} (h : TI m0 t) (v : LV) (hm : v.mode = .negative ∨ m0 = .positive) :
+    GoodCC v.mode (t.withBody v) := by
+  unfold Template.withBody
+  have hat : ∀ k, labelAt ((t.conts.map fun x => match x with | (k, xs) => (k, Content.slots xs)) ++
+        [(Kind.body, Content.bodyValue v.mode)]) k =
+      if k = Kind.body then some v.mode else labelAt t.contents k := by
+    intro k
+    unfold labelAt
+    rw [getAssoc_append]
+    rw [show (t.conts.map fun x => match x with | (k, xs) => (k, Content.slots xs)) =
+        (t.conts.map fun p => (p.1, Content.slots p.2)) from by
+          apply List.map_congr_left; intro ⟨a, b⟩ _; rfl]
+    rw [getAssoc_map]
+    by_cases hk : k = Kind.body
+    · subst hk; simp [h.nobody, getAssoc, labelOf]
+    · simp only [hk, if_false]
+      rw [contents_at]
+      cases hc : getAssoc k t.conts with
+      | some xs => simp
+      | none =>
+        have : ¬ Kind.body = k := fun e => hk e.symm
+        simp only [Option.map_none, getAssoc, this, if_false]
+        cases t.body with
+        | none => rfl
+        | some m => simp [hk]
+  refine ⟨?_, ?_⟩
+  · intro k
+    simp only [getAssoc_setAssoc, hat]
+    by_cases hk : k = Kind.body
+    · simp [hk]
+    · simp only [hk, if_false]; exact h.comps k
+  · simp only [hat]
+    constructor
+    · intro e; exact ⟨Kind.body, by simp [e]⟩
+    · rintro ⟨k, hk⟩
+      by_cases hkk : k = Kind.body
+      · simp only [hkk, if_true] at hk; exact Option.some.inj hk
+      · simp only [hkk, if_false] at hk
+        have := h.uniform k _ hk
+        rcases hm with hm | hm
+        · exact hm
+        · rw [hm] at this; cases this
+
+/-- a case sent with an undocumented method: negative whatever it contains; component labels are the template's -/
+theorem methodCase_good {m0 t} (h : TI m0 t) (m : String) :
+    let c := mkCase .negative (t.comps, t.contents) (.unspecifiedMethod m) none none (some m)
+    caseLabelOk c = true ∧ compsOk c = true := by
+  constructor
+  · simp [caseLabelOk, caseSpecNegative, mkCase]
+  · unfold compsOk mkCase
+    rw [List.all_eq_true]
+    intro k _
+    have := h.comps k
+    simp only [this, labelAt, beq_self_eq_true]
+
+/-! ### the blocks of `_iter_coverage_cases` -/
+
+def Good (c : Case) : Prop := caseLabelOk c = true ∧ compsOk c = true
+
+theorem buildTemplate_TI {m0} : ∀ (ps : List ParamIn) (t t' : Template), TI m0 t →
+    (∀ p ∈ ps, kindOfLocation p.location ≠ some Kind.body ∧ ∀ v rest, p.values = v :: rest → v.mode = m0) →
+    buildTemplate ps t = some t' → TI m0 t' := by
+  intro ps
+  induction ps with
+  | nil => intro t t' h _ he; simp [buildTemplate] at he; subst he; exact h
+  | cons p rest ih =>
+    intro t t' h hp he
+    have hp1 := hp p (by simp)
+    have hrest : ∀ q ∈ rest, _ := fun q hq => hp q (by simp [hq])
+    unfold buildTemplate at he
+    cases hv : p.values with
+    | nil => simp only [hv] at he; exact ih t t' h hrest he
+    | cons v more =>
+      simp only [hv] at he
+      cases hk : kindOfLocation p.location with
+      | none => simp [hk] at he
+      | some k =>
+        simp only [hk] at he
+        have hkb : k ≠ Kind.body := by intro e; subst e; exact hp1.1 hk
+        exact ih _ t' (TI_addParameter h k hkb p.name v (hp1.2 v more hv)) hrest he
+
+theorem bodyCases_good {m0} : ∀ (bs : List BodyIn) (t : Template), TI m0 t →
+    (∀ b ∈ bs, (∀ v rest, b.values = v :: rest → v.mode = m0) ∧ ∀ v ∈ b.values, v.mode = .negative ∨ m0 = .positive) →
+    (∀ c ∈ (bodyCases .repaired bs t).1, Good c) ∧ TI m0 (bodyCases .repaired bs t).2 := by
+  intro bs
+  induction bs with
+  | nil => intro t h _; simp [bodyCases]; exact h
+  | cons b rest ih =>
+    intro t h hb
+    have hb1 := hb b (by simp)
+    have hrest : ∀ q ∈ rest, _ := fun q hq => hb q (by simp [hq])
+    unfold bodyCases
+    cases hv : b.values with
+    | nil => simp only; exact ih t h hrest
+    | cons v more =>
+      simp only
+      have hvm : v.mode = m0 := hb1.1 v more hv
+      have ht' : TI m0 (if t.body.isNone then t.setBody v else t) := by
+        split
+        · exact TI_setBody h v hvm
+        · exact h
+      have ih' := ih _ ht' hrest
+      refine ⟨?_, ih'.2⟩
+      intro c hc
+      rw [List.mem_append, List.mem_cons, List.mem_map] at hc
+      rcases hc with (hc | ⟨nv, hnv, hc⟩) | hc
+      · subst hc
+        exact mkCase_good (good_withBody ht' v (hb1.2 v (by simp [hv])))
+      · subst hc
+        exact mkCase_good (good_withBody ht' nv (hb1.2 nv (by simp [hv, hnv])))
+      · exact ih'.1 c hc
+
+theorem labelOf_varied {m0 t} (h : TI m0 t) (k : Kind) (cont : List Slot) (hc : getAssoc k t.conts = some cont)
+    (name : String) (mode : Mode) (hm : mode = .negative ∨ m0 = .positive) :
+    labelOf (Content.slots (setSlot name mode cont)) = mode := by
+  cases mode with
+  | negative => simp [labelOf, anyNegative_setSlot_neg]
+  | positive =>
+    have hm0 : m0 = .positive := by rcases hm with e | e; cases e; exact e
+    apply labelOf_slots_setSlot
+    left
+    have := h.uniform k (labelOf (Content.slots cont)) (by rw [labelAt_template, hc])
+    rw [this, hm0]
+
+theorem parameterCases_good {m0 t} (h : TI m0 t) : ∀ (ps : List ParamIn) (cs : List Case),
+    (∀ p ∈ ps, ∀ v ∈ p.values, v.mode = .negative ∨ m0 = .positive) →
+    parameterCases t ps = some cs → ∀ c ∈ cs, Good c := by
+  intro ps
+  induction ps with
+  | nil => intro cs _ he c hc; simp [parameterCases] at he; subst he; simp at hc
+  | cons p rest ih =>
+    intro cs hp he c hc
+    have hp1 := hp p (by simp)
+    have hrest : ∀ q ∈ rest, _ := fun q hq => hp q (by simp [hq])
+    unfold parameterCases at he
+    cases hv : p.values with
+    | nil => simp only [hv] at he; exact ih cs hrest he c hc
+    | cons v more =>
+      simp only [hv] at he
+      cases hk : kindOfLocation p.location with
+      | none => simp [hk] at he
+      | some k =>
+        cases htail : parameterCases t rest with
+        | none => simp [hk, htail] at he
+        | some tail =>
+          simp only [hk, htail] at he
+          cases hcont : getAssoc k t.conts with
+          | none => simp [hcont] at he
+          | some cont =>
+            simp only [hcont, Option.some.injEq] at he
+            subst he
+            simp only [List.mem_append, List.mem_map] at hc
+            rcases hc with ⟨w, hw, rfl⟩ | hc
+            · have hwm := hp1 w (by simp [hv, hw])
+              exact mkCase_good (good_withContainer h k _ w.mode (labelOf_varied h k cont hcont p.name w.mode hwm) hwm)
+            · exact ih tail hrest htail c hc
+
+theorem duplicateCases_good {m0 t} (h : TI m0 t) (query : List ParamIn) (cs : List Case)
+    (he : duplicateCases t query = some cs) : ∀ c ∈ cs, Good c := by
+  unfold duplicateCases at he
+  split at he
+  · simp at he; subst he; intro c hc; simp at hc
+  · cases hcont : getAssoc Kind.query t.conts with
+    | none => simp [hcont] at he
+    | some cont =>
+      simp only [hcont, Option.some.injEq] at he
+      subst he
+      intro c hc
+      simp only [List.mem_filterMap] at hc
+      obtain ⟨p, _, hp⟩ := hc
+      split at hp
+      · simp only [Option.some.injEq] at hp; subst hp
+        exact mkCase_good (good_withContainer h .query _ .negative rfl (Or.inl rfl))
+      · simp at hp
+
+theorem missingCases_good {m0 t} (h : TI m0 t) : ∀ (ps : List ParamIn) (cs : List Case),
+    missingCases t ps = some cs → ∀ c ∈ cs, Good c := by
+  intro ps
+  induction ps with
+  | nil => intro cs he c hc; simp [missingCases] at he; subst he; simp at hc
+  | cons p rest ih =>
+    intro cs he c hc
+    unfold missingCases at he
+    split at he
+    · cases hk : kindOfLocation p.location with
+      | none => simp [hk] at he
+      | some k =>
+        cases htail : missingCases t rest with
+        | none => simp [hk, htail] at he
+        | some tail =>
+          simp only [hk, htail] at he
+          cases hcont : getAssoc k t.conts with
+          | none => simp [hcont] at he
+          | some cont =>
+            simp only [hcont, Option.some.injEq] at he
+            subst he
+            simp only [List.mem_cons] at hc
+            rcases hc with hc | hc
+            · subst hc
+              exact mkCase_good (good_withContainer h k _ .negative rfl (Or.inl rfl))
+            · exact ih tail htail c hc
+    · exact ih cs he c hc
+
+theorem methodCases_good {m0 t} (h : TI m0 t) (methods : List String) : ∀ c ∈ methodCases t methods, Good c := by
+  intro c hc
+  simp only [methodCases, List.mem_map] at hc
+  obtain ⟨m, _, rfl⟩ := hc
+  exact methodCase_good h m
+
+theorem yieldNegative_good {m0 t} (h : TI m0 t) (kind : Kind) (location : String) (vals : List LV) :
+    ∀ c ∈ yieldNegative t kind location vals, Good c := by
+  intro c hc
+  simp only [yieldNegative, List.mem_map] at hc
+  obtain ⟨v, _, rfl⟩ := hc
+  exact mkCase_good (good_withContainer h kind _ .negative rfl (Or.inl rfl))
+
+theorem base_clean {t} (h : TI .positive t) (kind : Kind) : anyNegative ((getAssoc kind t.conts).getD []) = false := by
+  cases hc : getAssoc kind t.conts with
+  | none => rfl
+  | some xs =>
+    have := h.uniform kind (labelOf (Content.slots xs)) (by rw [labelAt_template, hc])
+    simp only [labelOf] at this
+    by_cases ha : anyNegative xs = true
+    · simp [ha] at this
+    · simpa using ha
+
+theorem positiveCombo_good {t} (h : TI .positive t) (kind : Kind) (p : Slot → Bool) (d : CaseDesc) (pl : Option String) :
+    Good (mkCase .positive (t.withContainer kind (.slots (((getAssoc kind t.conts).getD []).filter p)) .positive) d none pl) := by
+  apply mkCase_good
+  apply good_withContainer h kind _ .positive _ (Or.inr rfl)
+  simp [labelOf, anyNegative_filter p _ (base_clean h kind)]
+
 end SV.Proofs.C03
